@@ -36,6 +36,10 @@ def mirLine (line : String) : String :=
     match parseMir dump with
     | some P => s!"{id}\t{staticLine P}"
     | none => s!"{id}\tbad-input"
+  | [id, "trace", times, inputs, dump] =>
+    match parseMir dump, times.toNat? with
+    | some P, some n => s!"{id}\t{runTrace P n (parseInputs inputs)}"
+    | _, _ => s!"{id}\tbad-input"
   | [id, times, inputs, dump] =>
     match parseMir dump, times.toNat? with
     | some P, some n => s!"{id}\t{runProg P n (parseInputs inputs)}"
